@@ -180,6 +180,9 @@ pub struct Config {
     /// Whether to stop searching when a non-matching line is found after a
     /// matching line.
     stop_on_nonmatch: bool,
+    /// The initial capacity of the line buffer. Verification builds only.
+    #[cfg(ripgrep_verif)]
+    verif_capacity: Option<usize>,
 }
 
 impl Default for Config {
@@ -198,6 +201,8 @@ impl Default for Config {
             encoding: None,
             bom_sniffing: true,
             stop_on_nonmatch: false,
+            #[cfg(ripgrep_verif)]
+            verif_capacity: None,
         }
     }
 }
@@ -227,6 +232,20 @@ impl Config {
             builder
                 .capacity(capacity)
                 .buffer_alloc(BufferAllocation::Error(additional));
+        }
+        #[cfg(ripgrep_verif)]
+        if let Some(capacity) = self.verif_capacity {
+            match self.heap_limit {
+                None => {
+                    builder.capacity(capacity);
+                }
+                Some(limit) => {
+                    let capacity = cmp::min(capacity, limit);
+                    builder
+                        .capacity(capacity)
+                        .buffer_alloc(BufferAllocation::Error(limit - capacity));
+                }
+            }
         }
         builder.build()
     }
@@ -456,6 +475,21 @@ impl SearcherBuilder {
         bytes: Option<usize>,
     ) -> &mut SearcherBuilder {
         self.config.heap_limit = bytes;
+        self
+    }
+
+    /// Set the initial capacity of the buffer used by the incremental line
+    /// oriented search strategy (64 KiB otherwise). The buffer still grows
+    /// as needed, up to the heap limit if one is set.
+    ///
+    /// This exists only in verification builds (`--cfg ripgrep_verif`), so
+    /// that buffer rolling and growth can be exercised with small inputs.
+    #[cfg(ripgrep_verif)]
+    pub fn verif_buffer_capacity(
+        &mut self,
+        capacity: Option<usize>,
+    ) -> &mut SearcherBuilder {
+        self.config.verif_capacity = capacity;
         self
     }
 
